@@ -55,6 +55,7 @@ const (
 var ctlName = []string{"Sync", "close+reopen", "install-snapshot(snapshot-format)", "install-snapshot(checkpoint-format)"}
 
 type Case struct {
+	Family string   `json:"family,omitempty"` // "" = the enumerated histories, "large" = the memtable-filling history
 	Steps  []int    `json:"steps"`
 	Crash  int      `json:"crash"`            // op number at which syncs stop being effective
 	Crash2 int      `json:"crash2,omitempty"` // second crash (op number in recovery phase), -1 none
@@ -401,6 +402,31 @@ func RunHistory(r *evid.Run, its []item, steps []int, repeated bool) {
 	runHistory(r, its, steps, repeated, "")
 }
 
+// Large family: apply calls of two entries - a small plain put, then a 1 MiB put that asks for the
+// previous pair (so the call's batch turns into an indexed batch half way) - repeated until the
+// writes exceed what pebble keeps in memory, so that pebble flushes a memtable ON ITS OWN between
+// two syncs of the workload: the only way data of an apply call can become durable without the
+// call's index.
+func largeItems() []item {
+	big := strings.Repeat("L", 1<<20)
+	its := items()
+	for i := 0; i < 20; i++ {
+		// a different small key per call: a call's leading write that became durable without the
+		// call is then visible as such
+		its = append(its, item{fmt.Sprintf("small-put(s%02d)-then-1MiB-put+prev", i), []*regattapb.Command{Put(fmt.Sprintf("s%02d", i), "s", false), Put("big", big, true)}})
+	}
+	return its
+}
+
+func largeHistory() []int {
+	n := len(items())
+	var steps []int
+	for i := 0; i < 20; i++ {
+		steps = append(steps, n+i)
+	}
+	return steps
+}
+
 // InstallHistories are histories containing snapshot installs, for C08's crash part.
 func InstallHistories() [][]int {
 	n := len(items())
@@ -415,6 +441,10 @@ func RunHistoryExt(r *evid.Run, steps []int, prefix string) {
 }
 
 func runHistory(r *evid.Run, its []item, steps []int, repeated bool, prefix string) {
+	runHistoryFam(r, "", its, steps, repeated, prefix)
+}
+
+func runHistoryFam(r *evid.Run, family string, its []item, steps []int, repeated bool, prefix string) {
 	p := mkPlan(its, steps)
 	// numbering run
 	env := fsmx.NewEnv()
@@ -431,7 +461,7 @@ func runHistory(r *evid.Run, its []item, steps []int, repeated bool, prefix stri
 			r.Cap("deadline inside crash enumeration")
 			return
 		}
-		c := Case{Steps: steps, Crash: k, Crash2: -1}
+		c := Case{Family: family, Steps: steps, Crash: k, Crash2: -1}
 		vs, outcome, recOps := RunCase(its, p, c, num, oplog)
 		r.Outcome(fmt.Sprintf("%v|%d|%s", steps, k, outcome), true)
 		if strings.HasPrefix(outcome, "skipped") {
@@ -510,9 +540,16 @@ func Run(r *evid.Run) {
 	if r.Thorough() {
 		depth = 3
 	}
-	r.Rule(fmt.Sprintf("histories = every sequence of length 0..%d over %d steps (10 apply calls: put, overwrite, delete, range delete, two-put transaction, put batch, sequence with leader index, two entries in one call, and two that write no user data - a no-op with leader index and a transaction that fails into an empty branch; 4 controls: Sync, clean close+reopen, snapshot install from a donor one entry ahead in both formats), starting from a never-opened table on a strict in-memory FS with only the base directory durable. For EVERY mutating FS operation boundary k (create/write/sync/rename/remove/link/mkdir/dir-sync, first open and final close included) the history is re-run with syncs ineffective from k on, unsynced state dropped, the table reopened and checked (index = stored index, content = model prefix at that index, not inside an apply call, >= last completed sync/close/install, leader index), the rest of the log re-applied and compared with the no-crash run. Thorough adds a second crash at every operation of the recovery+re-apply phase for histories of length <= 2. Non-trivial: every case (each is a distinct (history, crash point)); distinct = distinct (history, crash point, recovered index) triples", depth, na))
+	r.Rule(fmt.Sprintf("histories = every sequence of length 0..%d over %d steps (10 apply calls: put, overwrite, delete, range delete, two-put transaction, put batch, sequence with leader index, two entries in one call, and two that write no user data - a no-op with leader index and a transaction that fails into an empty branch; 4 controls: Sync, clean close+reopen, snapshot install from a donor one entry ahead in both formats), starting from a never-opened table on a strict in-memory FS with only the base directory durable. For EVERY mutating FS operation boundary k (create/write/sync/rename/remove/link/mkdir/dir-sync, first open and final close included) the history is re-run with syncs ineffective from k on, unsynced state dropped, the table reopened and checked (index = stored index, content = model prefix at that index, not inside an apply call, >= last completed sync/close/install, leader index), the rest of the log re-applied and compared with the no-crash run. Plus one memtable-filling history (20 apply calls of a small plain put followed by a 1MiB put with prev_kv, no sync: pebble flushes on its own in between) with the same enumeration of crash points. Thorough adds a second crash at every operation of the recovery+re-apply phase for histories of length <= 2. Non-trivial: every case (each is a distinct (history, crash point)); distinct = distinct (history, crash point, recovered index) triples", depth, na))
 	total := par.SeqCount(na, depth)
-	done := par.For(total, r.Expired, func(i int64) {
+	done := par.For(total+1, r.Expired, func(i int64) {
+		if i == 0 {
+			// scheduled first: the longest single history
+			runHistoryFam(r, "large", largeItems(), largeHistory(), false, "large/")
+			r.AddExtra("histories", 1)
+			return
+		}
+		i--
 		steps := par.SeqAt(na, depth, i)
 		RunHistory(r, its, steps, r.Thorough() && len(steps) <= 2)
 		r.AddExtra("histories", 1)
@@ -520,7 +557,7 @@ func Run(r *evid.Run) {
 			r.Sample(map[string]any{"history": descr(its, steps), "crash_points": "every op boundary"})
 		}
 	})
-	if done < total {
+	if done < total+1 {
 		r.Cap(fmt.Sprintf("deadline: %d of %d histories", done, total))
 	}
 	r.Assume("fault model of the property: file data durable up to the file's last sync, directory entries up to the directory's last sync (pebble strict MemFS); no torn writes inside a synced file")
@@ -533,6 +570,9 @@ func Replay(raw json.RawMessage) (string, bool) {
 		return err.Error(), false
 	}
 	its := items()
+	if c.Family == "large" {
+		its = largeItems()
+	}
 	p := mkPlan(its, c.Steps)
 	env := fsmx.NewEnv()
 	env.FS.Keep = true
